@@ -8,6 +8,9 @@
 //	n       = number of points written: a number, or <k>c+<m> = k*defaultEdgeBufferSize + m
 //	chain   = node kinds after the implicit `stream` source, comma separated:
 //	          from | where | post | alert | influx:<B> | udf | fail:<K> | loop |
+//	          minflux:<B>.<K>.<F> (influxDBOut().buffer(B) WITHOUT .database()/.retentionPolicy() in a task with K DBRPs
+//	          db0/rp … db<K-1>/rp: point i is written to database i mod K and keeps it, so the node's write buffer holds one
+//	          batch per database; the fake client REJECTS every write to the databases of the bit mask F) |
 //	          barrier:<ms> (idle, delete) | pbarrier:<ms> (period, delete) | barriernd:<ms> (idle, no delete)
 //	stop    = task (TaskMaster.StopTask) | delete (DeleteTask) | close (TaskMaster.Close)
 //	class   = drained (stop after everything was handed over) | gated (outputs blocked until the stop is
@@ -16,7 +19,9 @@
 //	acc     = number of points whose WritePoints call had returned nil when the stop was requested
 //	stopres = ok | err (stop returned an error) | hang (did not return within the bound)
 //	census  = task goroutines still alive after the stop (settled), relative to before the task started
-//	outs    = per output node  <idx>:<total>:<distinct>:<missing>:<calls>   (calls = sizes of InfluxDB writes)
+//	outs    = per output node  <idx>:<total>:<distinct>:<missing>:<calls>   (calls = sizes of InfluxDB writes;
+//	          minflux: per database `<k><h|r>@<sizes>` joined by `/` (h = healthy, r = rejecting), and total / distinct /
+//	          missing count the ids the client was HANDED in a Write call to the database they belong to, accepted or not)
 //	late    = deliveries that arrived after the stop had returned
 //	nodeerr = 1 when some node of the task finished with an error (ExecutingTask.Wait)
 package c07
@@ -68,6 +73,8 @@ var caseSeq int64
 type nodeSpec struct {
 	kind string
 	arg  int
+	keys int // minflux: number of databases
+	rej  int // minflux: bit mask of the databases whose writes the client rejects
 }
 
 func parseChain(s string) ([]nodeSpec, error) {
@@ -75,6 +82,25 @@ func parseChain(s string) ([]nodeSpec, error) {
 	for _, t := range strings.Split(s, ",") {
 		p := strings.SplitN(t, ":", 2)
 		ns := nodeSpec{kind: p[0]}
+		if ns.kind == "minflux" {
+			var b, k, f int
+			if len(p) != 2 {
+				return nil, fmt.Errorf("minflux needs <B>.<K>.<F>")
+			}
+			q := strings.Split(p[1], ".")
+			if len(q) != 3 {
+				return nil, fmt.Errorf("minflux needs <B>.<K>.<F>")
+			}
+			var e1, e2, e3 error
+			b, e1 = strconv.Atoi(q[0])
+			k, e2 = strconv.Atoi(q[1])
+			f, e3 = strconv.Atoi(q[2])
+			if e1 != nil || e2 != nil || e3 != nil || b < 0 || k < 1 || k > 16 || f < 0 || f >= 1<<uint(k) {
+				return nil, fmt.Errorf("bad minflux %q", p[1])
+			}
+			out = append(out, nodeSpec{kind: "minflux", arg: b, keys: k, rej: f})
+			continue
+		}
 		if len(p) == 2 {
 			v, err := strconv.Atoi(p[1])
 			if err != nil {
@@ -203,10 +229,23 @@ func runCase(chainS, stopKind, class string, n int, stopBound time.Duration) (re
 	}
 	if merge >= 0 {
 		for j := range chain[:merge] {
-			if chain[j].kind == "influx" {
+			if chain[j].kind == "influx" || chain[j].kind == "minflux" {
 				return res, fmt.Errorf("influxDBOut cannot feed a union/join")
 			}
 		}
+	}
+	// several databases: a `minflux` node makes the task subscribe to K DBRPs, point i is written to database i mod K
+	ndb := 0
+	for _, ns := range chain {
+		if ns.kind == "minflux" {
+			if ndb != 0 && ndb != ns.keys {
+				return res, fmt.Errorf("all minflux nodes of a task must have the same number of databases")
+			}
+			ndb = ns.keys
+		}
+	}
+	if ndb > 0 && merge >= 0 {
+		return res, fmt.Errorf("minflux is not supported in union/join topologies")
 	}
 	key := fmt.Sprintf("c%d", atomic.AddInt64(&caseSeq, 1))
 	hs := sink()
@@ -284,6 +323,11 @@ func runCase(chainS, stopKind, class string, n int, stopBound time.Duration) (re
 			fi.clients[fmt.Sprintf("w%d", idx)] = t
 			outs = append(outs, outInfo{idx, t})
 			fmt.Fprintf(&sb, "  |influxDBOut().database('o').retentionPolicy('r').measurement('w%d').buffer(%d).flushInterval(1h)\n", idx, ns.arg)
+		case "minflux":
+			t := &sinkTarget{rec: newOutRec(), gate: g, keys: ns.keys, rej: ns.rej}
+			fi.clients[fmt.Sprintf("w%d", idx)] = t
+			outs = append(outs, outInfo{idx, t})
+			fmt.Fprintf(&sb, "  |influxDBOut().measurement('w%d').buffer(%d).flushInterval(1h)\n", idx, ns.arg)
 		case "udf":
 			sb.WriteString("  @sink()\n")
 		case "fail":
@@ -320,7 +364,14 @@ func runCase(chainS, stopKind, class string, n int, stopBound time.Duration) (re
 		}
 	}()
 	taskID := "t" + key
-	et, err := t.StartStream(taskID, sb.String(), []kapacitor.DBRP{{Database: "db", RetentionPolicy: "rp"}})
+	dbrps := []kapacitor.DBRP{{Database: "db", RetentionPolicy: "rp"}}
+	if ndb > 0 {
+		dbrps = nil
+		for k := 0; k < ndb; k++ {
+			dbrps = append(dbrps, kapacitor.DBRP{Database: fmt.Sprintf("db%d", k), RetentionPolicy: "rp"})
+		}
+	}
+	et, err := t.StartStream(taskID, sb.String(), dbrps)
 	if err != nil {
 		return res, fmt.Errorf("start: %v\n%s", err, sb.String())
 	}
@@ -340,13 +391,19 @@ func runCase(chainS, stopKind, class string, n int, stopBound time.Duration) (re
 	writerDone := make(chan struct{})
 	go func() {
 		defer close(writerDone)
-		const chunk = 50
+		chunk, db := 50, "db"
+		if ndb > 0 {
+			chunk = 1 // consecutive points go to different databases
+		}
 		for i := 0; i < n; i += chunk {
 			j := i + chunk
 			if j > n {
 				j = n
 			}
-			if err := t.TM.WritePoints("db", "rp", imodels.ConsistencyLevelAll, mkPoints(i, j)); err != nil {
+			if ndb > 0 {
+				db = fmt.Sprintf("db%d", i%ndb)
+			}
+			if err := t.TM.WritePoints(db, "rp", imodels.ConsistencyLevelAll, mkPoints(i, j)); err != nil {
 				return
 			}
 			atomic.AddInt64(&accepted, int64(j-i))
@@ -427,7 +484,7 @@ func runCase(chainS, stopKind, class string, n int, stopBound time.Duration) (re
 		// without an output that blocks the pipeline the gated state is the drained state
 		blocking := false
 		for _, ns := range chain {
-			if ns.kind == "post" || ns.kind == "influx" {
+			if ns.kind == "post" || ns.kind == "influx" || ns.kind == "minflux" {
 				blocking = true
 			}
 		}
@@ -494,7 +551,9 @@ func runCase(chainS, stopKind, class string, n int, stopBound time.Duration) (re
 		tot, dist, _ := o.t.rec.snapshot()
 		atStop += tot
 		calls := "-"
-		if chain[o.idx-1].kind == "influx" {
+		if chain[o.idx-1].kind == "minflux" {
+			calls = o.t.rec.keyedCalls(o.t.keys, o.t.rej)
+		} else if chain[o.idx-1].kind == "influx" {
 			o.t.rec.mu.Lock()
 			var cs []string
 			cl := o.t.rec.calls
